@@ -23,6 +23,7 @@ LUAFMT = os.environ.get("VERIF_LUAFMT") or os.path.join(BINS, "debug", "luafmt")
 VDRIVER = os.environ.get("VDRIVER", os.path.join(ROOT, "lean", ".lake", "build", "bin", "vdriver"))
 WORK = os.path.join(ROOT, ".work", "fmt_crash")
 
+STRSIZE = 65536
 FILE_SYSCALLS = ["open", "openat", "creat", "write", "pwrite64", "writev", "fsync", "fdatasync", "close",
                  "rename", "renameat", "renameat2", "unlink", "unlinkat", "fchmod", "chmod", "fchmodat",
                  "ftruncate", "truncate"]
@@ -128,13 +129,13 @@ def _unx(s):
     return bytes.fromhex(s.replace("\\x", ""))
 
 
-def run_traced(workdir, trace_path, inject=None, fsize=None, ignore_xfsz=True, timeout=120, luafmt=None):
+def run_traced(workdir, trace_path, inject=None, fsize=None, ignore_xfsz=True, timeout=120, luafmt=None, strsize=65536):
     """run `luafmt --write <workdir>` under strace; returns (exit status of strace, stderr).
     The strace log goes through a pipe (a pipe is not subject to RLIMIT_FSIZE, which is set — for the
     fsize faults — on strace and inherited by the traced luafmt) and is then stored in trace_path."""
     import threading
     r, w = os.pipe()
-    cmd = ["strace", "-f", "-xx", "-s", "10000000", "-o", f"/dev/fd/{w}", "-e", "trace=" + TRACE_SET]
+    cmd = ["strace", "-f", "-xx", "-s", str(strsize), "-o", f"/dev/fd/{w}", "-e", "trace=" + TRACE_SET]
     if inject:
         cmd += ["-e", "inject=" + inject]
     cmd += [luafmt or LUAFMT, "--write", workdir]
@@ -465,12 +466,15 @@ def all_syscall_names(trace_path):
 def run_fixture(rep, fixture_name, fx, tier, rng, seen, replay_fault=None, light=False):
     os.makedirs(WORK, exist_ok=True)
     new = expected_new(fx)
+    # strace must print whole write buffers (it truncates strings at -s); keep it small, strace pre-allocates 4x that
+    global STRSIZE
+    STRSIZE = max(4096, max(len(v) for v in new.values()) + 64)
     wd = os.path.join(WORK, "wd")
     trp = os.path.join(WORK, "trace.txt")
     pending = []
     # baseline
     materialise(fx, wd)
-    rc, err = run_traced(wd, trp)
+    rc, err = run_traced(wd, trp, strsize=STRSIZE)
     base = parse_trace(trp, wd)
     base["all_names"] = all_syscall_names(trp)
     check_run(rep, fx, new, fixture_name, {"kind": "none"}, wd, trp, rc, seen, pending)
@@ -496,13 +500,13 @@ def run_fixture(rep, fixture_name, fx, tier, rng, seen, replay_fault=None, light
     for fault in faults:
         materialise(fx, wd)
         if fault["kind"] == "none":
-            rc, _ = run_traced(wd, trp)
+            rc, _ = run_traced(wd, trp, strsize=STRSIZE)
         elif fault["kind"] == "kill":
-            rc, _ = run_traced(wd, trp, inject=f"{fault['syscall']}:signal=KILL:when={fault['when']}")
+            rc, _ = run_traced(wd, trp, inject=f"{fault['syscall']}:signal=KILL:when={fault['when']}", strsize=STRSIZE)
         elif fault["kind"] == "error":
-            rc, _ = run_traced(wd, trp, inject=f"{fault['syscall']}:error={fault['errno']}:when={fault['when']}")
+            rc, _ = run_traced(wd, trp, inject=f"{fault['syscall']}:error={fault['errno']}:when={fault['when']}", strsize=STRSIZE)
         else:
-            rc, _ = run_traced(wd, trp, fsize=fault["limit"], ignore_xfsz=(fault["sigxfsz"] == "ignored"))
+            rc, _ = run_traced(wd, trp, fsize=fault["limit"], ignore_xfsz=(fault["sigxfsz"] == "ignored"), strsize=STRSIZE)
         rep.count("fault_" + fault["kind"])
         check_run(rep, fx, new, fixture_name, fault, wd, trp, rc, seen, pending)
         if len(pending) >= 200:
